@@ -81,6 +81,7 @@ RXV_SUBCOMMAND(c17) {
 			emit(sh + "prog:" + std::to_string(ci), std::string(pg::genNames[gen]) + (v2 ? " v2" : " v1") + (full ? " full" : " light") + " iters=" + std::to_string(iters ? iters : 2048) + " program=" + hex(prog, 64) + "...", hex(r.reg, 256) + tail);
 			R.count("programs"); R.evaluation();
 			R.nontrivial(fnv1a(prog, pg::PROG_BYTES));
+			if (ci < 2) R.sample("{\"kind\":\"program\",\"generator\":\"" + std::string(pg::genNames[gen]) + "\",\"v2\":" + std::to_string(v2) + ",\"full_mem\":" + std::to_string(full) + ",\"iterations\":" + std::to_string(iters ? iters : 2048) + ",\"program_head\":\"" + hex(prog, 160) + "\",\"register_file_r\":\"" + hex(r.reg, 64) + "\"}");
 			R.clearCase();
 		}
 	}
